@@ -31,6 +31,7 @@ type Builder struct {
 	typeList []types.Type
 	fresh    int
 	needStrOrder bool
+	heapElem     map[string]types.Type
 }
 
 func newBuilder() *Builder {
@@ -368,7 +369,9 @@ func (b *Builder) constArray(elem types.Type) Term {
 // (Array Int (Array Int sort)) – ref -> index -> value.
 func (b *Builder) heapName(t types.Type) string {
 	b.sortOf(t) // declare the sort
-	return "HS." + sanitize(typeKey(t))
+	k := "HS." + sanitize(typeKey(t))
+	b.noteHeapElem(k, t)
+	return k
 }
 
 // typeKey is a canonical name of a Go type: objects of types with different
